@@ -369,6 +369,9 @@ where
             let (buffered_tx, buffered_rx) = crossbeam_channel::bounded(1);
 
             rayon::spawn(move || {
+                #[cfg(noodles_verif)]
+                let _verif_scope =
+                    crate::verif::task_scope(crate::verif::Task::Inflate, &buffer.buf);
                 let result = parse_block(&buffer.buf, &mut buffer.block).map(|_| buffer);
                 let _ = buffered_tx.send(result);
             });
